@@ -36,6 +36,11 @@ def c19(run: Run):
     rules_c19.check(run, program(run), cyprogram(run))
 
 
+def c06(run: Run):
+    from . import rules_c06
+    rules_c06.check(run, program(run))
+
+
 def c01(run: Run):
     from . import rules_c01
     rules_c01.check(run, program(run))
@@ -43,5 +48,6 @@ def c01(run: Run):
 
 CHECKS = {
     "C01": c01,
+    "C06": c06,
     "C19": c19,
 }
